@@ -882,6 +882,151 @@ func cacheCases(rng *hx.Rng, st *signedTx, r raw, label string) {
 	}
 }
 
+// lifeCases: object-lifetime sequences on ONE transaction object: (Hash | Size | Sender under S1 | nothing), then
+// SignTx / WithSignature with (same key | other key) x (same signer | other chain id | other signer kind) or with arbitrary
+// signature bytes, then the same observations on the NEW object.  Every observation on a live object must equal the
+// observation on a fresh RLP decode of that object's encoding (no cache can be stale), and a SignTx result must be
+// attributed to the signing key.
+func lifeCases(rng *hx.Rng, n int) {
+	observe := func(t *types.Transaction, op string, sg sgn) string {
+		switch op {
+		case "h":
+			return "h:" + hex.EncodeToString(t.Hash().Bytes())
+		case "z":
+			return fmt.Sprintf("z:%d", int(t.Size()))
+		}
+		return strings.ReplaceAll(sender(sg, t), " ", "_")
+	}
+	for i := 0; i < n; i++ {
+		u := genUnsigned(rng)
+		keyA, keyB := genKey(rng), genKey(rng)
+		c1 := genChain(rng)
+		s1 := []sgn{{"E", c1}, {"H", nil}, {"F", nil}}[rng.Intn(3)]
+		var cur *types.Transaction
+		switch i % 3 {
+		case 0:
+			cur = u.unsignedTx()
+		case 1:
+			t, err := types.SignTx(u.unsignedTx(), s1.signer(), crypto.ToECDSAUnsafe(keyA))
+			if err != nil {
+				continue
+			}
+			cur = t
+		default:
+			t, err := types.SignTx(u.unsignedTx(), s1.signer(), crypto.ToECDSAUnsafe(keyA))
+			if err != nil {
+				continue
+			}
+			r0 := rawOf(t)
+			cur, _ = r0.tx()
+		}
+		start := rawOf(cur)
+		var ops, outs, recs []string
+		in := map[string]interface{}{"start": start.String(), "keyA": hex.EncodeToString(keyA), "keyB": hex.EncodeToString(keyB)}
+		do := func(op string, sg sgn) {
+			run.Current("life " + op)
+			got := hx.Safe(func() string { return observe(cur, op, sg) })
+			r := rawOf(cur)
+			fresh, err := r.tx()
+			want := "undecodable"
+			if err == nil {
+				want = observe(fresh, op, sg)
+				if op == "h" {
+					want = "h:" + hex.EncodeToString(crypto.Keccak256(r.encode()))
+				}
+				if op == "z" {
+					want = fmt.Sprintf("z:%d", len(r.encode()))
+				}
+			}
+			name := op
+			if op == "s" {
+				name = "s=" + sg.String()
+				if o := recoverOracle(cur, r.R, r.S, sg); o != "-" {
+					recs = append(recs, o)
+				}
+			}
+			ops = append(ops, name)
+			outs = append(outs, got)
+			in["ops"] = strings.Join(ops, ";")
+			if got != want {
+				what := map[string]string{"h": "Hash() is not the hash of the object's own encoding", "z": "Size() is not the length of the object's own encoding", "s": "Sender differs from the sender of a fresh decode of the same transaction"}[op]
+				violate("stale-cache", "object lifetime: "+what, in, "after "+strings.Join(ops, ";")+": got "+got+" want "+want)
+			}
+		}
+		pre := func(t sgn) {
+			for _, op := range []string{"h", "z", "s"} {
+				if rng.Intn(3) != 0 {
+					do(op, t)
+				}
+			}
+		}
+		pre(s1)
+		rounds := 1 + rng.Intn(3)
+		for rd := 0; rd < rounds; rd++ {
+			// choose the re-signing
+			s2 := s1
+			switch rng.Intn(4) {
+			case 1:
+				s2 = sgn{"E", new(big.Int).Add(genChain(rng), big1)}
+			case 2:
+				s2 = []sgn{{"H", nil}, {"F", nil}, {"E", big.NewInt(int64(1 + rng.Intn(1000)))}}[rng.Intn(3)]
+			}
+			key := keyA
+			if rng.Bool() {
+				key = keyB
+			}
+			priv := crypto.ToECDSAUnsafe(key)
+			var sig []byte
+			real := rng.Intn(4) != 0
+			if real {
+				h := s2.signer().Hash(cur)
+				sig, _ = crypto.Sign(h[:], priv)
+			} else { // arbitrary signature bytes through WithSignature directly
+				sig = make([]byte, 65)
+				copy(sig[0:32], new(big.Int).Add(new(big.Int).SetBytes(rng.Bytes(31)), big1).FillBytes(make([]byte, 32)))
+				copy(sig[32:64], new(big.Int).Add(new(big.Int).SetBytes(rng.Bytes(31)), big1).FillBytes(make([]byte, 32)))
+				sig[64] = byte(rng.Intn(2))
+			}
+			var next *types.Transaction
+			var err error
+			if real && rng.Bool() {
+				next, err = types.SignTx(cur, s2.signer(), priv)
+			} else {
+				next, err = cur.WithSignature(s2.signer(), sig)
+			}
+			if err != nil || next == nil {
+				run.Count("life:resign-failed")
+				break
+			}
+			ops = append(ops, fmt.Sprintf("w=%s,%s,%s,%d", s2.String(), hn(new(big.Int).SetBytes(sig[:32])), hn(new(big.Int).SetBytes(sig[32:64])), sig[64]))
+			outs = append(outs, "w")
+			old := s1
+			cur, s1 = next, s2
+			// the new object: always all three observations, under the new signer, the old one and a third one
+			do("h", s2)
+			do("z", s2)
+			do("s", s2)
+			if real && !(s2.kind == "E" && s2.chain.Sign() == 0) {
+				addr := crypto.PubkeyToAddress(priv.PubKey())
+				if got := outs[len(outs)-1]; got != "ok_"+hex.EncodeToString(addr[:]) {
+					violate("stale-cache", "object lifetime: re-signed transaction not attributed to the signing key", in, "after "+strings.Join(ops, ";")+": Sender = "+got+" want "+hex.EncodeToString(addr[:]))
+				}
+			}
+			do("s", old)
+			do("s", sgn{"E", big.NewInt(int64(1 + rng.Intn(5)))})
+			do("h", s2)
+			run.Count("life:resign:" + map[bool]string{true: "real", false: "arbitrary-sig"}[real])
+		}
+		run.Case("life "+start.String()+" "+strings.Join(ops, ";")+" "+func() string {
+			if len(recs) == 0 {
+				return "-"
+			}
+			return strings.Join(recs, ",")
+		}(), strings.Join(outs, "|"))
+		run.Count("life")
+	}
+}
+
 // protCases: isProtectedV / deriveChainId on boundary V values.
 func protCases() {
 	vs := []*big.Int{big0, big1, big.NewInt(26), big.NewInt(27), big.NewInt(28), big.NewInt(29), big.NewInt(34), big.NewInt(35), big.NewInt(36), big.NewInt(37), big.NewInt(38),
@@ -1121,6 +1266,11 @@ func main() {
 			cacheCases(mr, st, tw, "unprotected-high-S")
 		}
 	}
+	nl := 300
+	if thorough {
+		nl = 20000
+	}
+	lifeCases(rng.Fork(5), nl)
 	latticeCases(rng.Fork(3), thorough)
 	na := 4
 	if thorough {
